@@ -169,3 +169,29 @@ def check_lifecycle_transfer(rep, prog, rid, fields=None, check_pending=True):
             n += 1
             rep.ok(rid, b.key, "field transfer", detail={"fields_moved_same_name": moved}, where=b.loc())
     return n
+
+
+def check_forward_gate(rep, prog, rid):
+    """every call of PortActionIterator::with_forward_tlvs (the only producer of ForwardTLV actions) is reached only
+    where Bmca::register_announce_message accepted the Announce (not our own, sender on the acceptable master list).
+    Shared by C07 (NI-7) and C15 (TLV-9)."""
+    n = 0
+    for b in sorted(prog.bodies.values(), key=lambda x: x.key):
+        if b.unit.name != "statime-lib" or b.is_test():
+            continue
+        c = None
+        for bi, t, cal in mir.iter_calls(b, name="with_forward_tlvs"):
+            c = c or cnd.conds(prog, b)
+            n += 1
+            lits = cnd.expand_literals(prog, b, set(c.must_literals(bi)))
+            ok = any(l[0] == "bool" and l[2] is True and df.strip(l[1])[0] == "call" and
+                     df.strip(l[1])[2] == "register_announce_message" for l in lits)
+            if ok:
+                rep.ok(rid, b.key, "with_forward_tlvs under the acceptance gate", where=where(b, t["sp"][1]))
+            else:
+                rep.violation(rid, b.key, "with_forward_tlvs under the acceptance gate",
+                              "TLVs of an Announce are turned into ForwardTLV actions although register_announce_message did not "
+                              "accept it on this path (conditions: %s): TLVs from an unacceptable or own-identity sender get "
+                              "forwarded" % sorted(cnd.lit_canon(l, b) for l in lits), where=where(b, t["sp"][1]))
+    if n == 0:
+        rep.anchor_missing(rid, "no call of with_forward_tlvs found")
